@@ -151,7 +151,7 @@ def replay_internal(pid: str, path: str) -> dict:
                 return out
             continue
         failures, exc = symx.run_concrete(
-            lambda: ob.fn(**param), model, expected_exc=ob.expected_exc
+            lambda: ob.fn(**param), {**model, "__atom__": rec.get("label")}, expected_exc=ob.expected_exc
         )
         out = {"reproduced": bool(failures or (exc and exc[0] != "abort")), "failed_atoms": failures, "exception": exc, "model": model}
         tried.append(out)
